@@ -1,32 +1,57 @@
 ---------------------------- MODULE CrashTrace ----------------------------
 (* Outcomes recorded from real kills are accepted iff they satisfy the Recover / Redeliver   *)
-(* post-conditions of Crash.tla at the recorded crash point of the recorded step list.      *)
+(* post-conditions of Crash.tla at the recorded crash point of the recorded step list of the *)
+(* recorded layer (hook layer: the child abort()ed at the k-th cfg(grin_verif) crash point;  *)
+(* syscall layer: an LD_PRELOAD interposer killed the child before - or in the middle of -   *)
+(* the k-th persistence call).  The post-condition of the run decides completeness: for the  *)
+(* scenarios marked "all" every crash point of the layer (as DEFINED by Crash.tla) was run.  *)
 EXTENDS Crash, Json, IOUtils, TLC
 ScenariosFromFile == JsonDeserialize(IOEnv.STEPS)
 Rec == ndJsonDeserialize(IOEnv.TRACE)
 VARIABLE l
-tvars == <<sc, done, phase, out, l>>
+tvars == <<sc, layer, done, torn, phase, out, l>>
 
-ScIndex(name) == CHOOSE i \in 1..Len(Scenarios) : Scenarios[i].name = name
+TInit == /\ l = 1 /\ sc = 1 /\ layer = "hook" /\ done = 0 /\ torn = FALSE /\ phase = "run" /\ out = NoOut
 
-TInit == /\ l = 1 /\ sc = 1 /\ done = 0 /\ phase = "run" /\ out = NoOut
-
-\* one event = one complete behaviour Step^(at-1) ; Crash ; Recover(o) ; Redeliver of the spec
+\* one event = one complete behaviour Step^(at-1) ; Crash | CrashTorn ; Recover(o) ; Redeliver of the spec
 TCrash ==
   /\ l <= Len(Rec) /\ Rec[l].k = "Crash" /\ l' = l + 1
   /\ LET e == Rec[l]
-         s == ScIndex(e.scenario)
-         st == Steps(s)
-         o == [opened |-> e.opened, head_on_chain |-> e.head_on_chain, valid |-> e.valid, input_converged |-> e.input_converged, converged |-> e.converged]
-     IN /\ e.at \in 1..(Len(st) + 1)
+         s == e.si                                        \* index of the scenario (checked against its name)
+         S == Scenarios[s]
+         st == IF e.layer = "hook" THEN S.steps ELSE S.sys
+         o == [opened |-> e.opened, head_on_chain |-> e.head_on_chain, valid |-> e.valid, header_ok |-> e.header_ok,
+               input_converged |-> e.input_converged, converged |-> e.converged]
+     IN /\ S.name = e.scenario
+        /\ e.layer \in {"hook", "sys"}
+        /\ e.at \in 1..(Len(st) + 1)
         /\ (e.at <= Len(st) => st[e.at].l = e.label)      \* bound to the recorded step list
+        \* the crash point is one the spec's Crash / CrashTorn actions allow, and the driver's notion of
+        \* its crash state and of the enclosing hook window is the spec's
+        /\ e.layer = "sys" => /\ IF e.torn THEN e.at \in TornPointsIn(S.sys) ELSE e.at \in SysCrashPointsIn(S.sys)
+                              /\ e.win = OpenHookIn(S.hookpos, e.at)
+                              /\ e.state = MutBeforeIn(S.sys, e.at - 1)
+        /\ e.layer = "hook" => /\ ~e.torn
+                               /\ e.state = MutBeforeIn(S.sys, IF e.at <= Len(st) THEN S.hookpos[e.at] ELSE Len(S.sys))
         \* Recover's and Redeliver's post-conditions decide the event; a failing event is reported
         \* (one line per event) and the validation continues so that every crash point is decided
         /\ (IF RecoverOK(o) /\ RedeliverOK(o) THEN TRUE ELSE PrintT(<<"CRASHVIOLATION", l>>))
-        /\ sc' = s /\ done' = e.at - 1 /\ phase' = "redelivered" /\ out' = o
+        /\ sc' = s /\ layer' = e.layer /\ done' = e.at - 1 /\ torn' = e.torn /\ phase' = "redelivered" /\ out' = o
 
 TSpec == TInit /\ [][TCrash]_tvars
+
+\* crash points executed for a scenario / layer
+RanIn(name, ly, tn) == {Rec[i].at : i \in {k \in 1..Len(Rec) : Rec[k].scenario = name /\ Rec[k].layer = ly /\ Rec[k].torn = tn}}
+ExhaustiveIn(S) ==
+     /\ S.hookmode = "all" => RanIn(S.name, "hook", FALSE) = 1..(Len(S.steps) + 1)
+     /\ S.hookmode = "sample" => RanIn(S.name, "hook", FALSE) # {}
+     /\ S.sysmode = "all" => RanIn(S.name, "sys", FALSE) = SysCrashPointsIn(S.sys)
+     /\ S.sysmode = "sample" => RanIn(S.name, "sys", FALSE) # {}
+     /\ S.tornmode = "all" => RanIn(S.name, "sys", TRUE) = TornPointsIn(S.sys)
+     /\ S.tornmode = "sample" => (TornPointsIn(S.sys) # {} => RanIn(S.name, "sys", TRUE) # {})
+Exhaustive == LET A == Scenarios IN \A s \in 1..Len(A) : ExhaustiveIn(A[s])
 Accepted == LET d == TLCGet("stats").diameter IN
-            IF d - 1 = Len(Rec) THEN TRUE
-            ELSE Print(<<"TRACE-REJECTED at event", d, IF d <= Len(Rec) THEN Rec[d] ELSE "eof">>, FALSE)
+            IF d - 1 # Len(Rec) THEN Print(<<"TRACE-REJECTED at event", d, IF d <= Len(Rec) THEN Rec[d] ELSE "eof">>, FALSE)
+            ELSE IF ~Exhaustive THEN Print(<<"TRACE-REJECTED: crash points of a layer marked exhaustive were not all executed">>, FALSE)
+            ELSE TRUE
 ===========================================================================
